@@ -347,6 +347,187 @@ def analyse_pp(src):
     return {"patterns": [p for p, _w in pats], "problems": problems}
 
 
+# ----------------------------------------------------------------------------- every other regex of the expansion path
+
+# Every regular expression compiled or used by the modules that run during template expansion (besides pp.py, above):
+# the #iferror detector of magics.py, the #time format splitter, the #expr tokenizer, the template scanner and the
+# parser's #if/#switch name matchers.  Each is applied to text the page author controls (an argument, a format string, the
+# whole page), so each must be (1) one of the reviewed patterns, pinned by (file, sha256 of the pattern, flags), and (2)
+# free of nested overlapping quantifiers (regex_problems).  Patterns that are built at run time must come from a pinned
+# statement (RX_DYNAMIC_PINNED) that only joins re.escape()d literals.
+RX_FILES = ["mwlib/parser/templ/magics.py", "mwlib/parser/templ/magic_nodes.py", "mwlib/parser/templ/magic_time.py",
+            "mwlib/parser/expr.py", "mwlib/parser/templ/parser.py", "mwlib/parser/templ/scanner.py"]
+RX_FLAG_NAMES = {"I": "IGNORECASE", "IGNORECASE": "IGNORECASE", "S": "DOTALL", "DOTALL": "DOTALL", "X": "VERBOSE", "VERBOSE": "VERBOSE",
+                 "M": "MULTILINE", "MULTILINE": "MULTILINE", "U": "UNICODE", "UNICODE": "UNICODE", "A": "ASCII", "ASCII": "ASCII"}
+RX_PATTERN_FUNCS = {"compile", "match", "search", "sub", "subn", "split", "findall", "finditer", "fullmatch"}
+# (file, first 16 hex digits of sha256(pattern), sorted flag names) of the reviewed patterns
+RX_PINNED = {
+    # if_error_rx: <(div|span|p|strong)\s[^<>]*class="error"[^<>]*>  - two flat [^<>]* runs, nothing nested
+    ("mwlib/parser/templ/magics.py", "8f9d1b8eac790eab", ("IGNORECASE",)),
+    # #time format splitter  "[^"]*"|xr|\\.|.
+    ("mwlib/parser/templ/magic_time.py", "e9dfd6879175310a", ()),
+    # four-digit year test  \d\d\d\d$
+    ("mwlib/parser/templ/magic_time.py", "335b2da3121ae9d4", ()),
+    # #expr tokenizer PATTERN (verbose): blanks | number | operator/word/any
+    ("mwlib/parser/expr.py", "441385f29895f569", ("DOTALL", "IGNORECASE", "VERBOSE")),
+    # parser name matchers ^#if:  ^#switch:
+    ("mwlib/parser/templ/parser.py", "0ab13fac94f2b5b9", ()),
+    ("mwlib/parser/templ/parser.py", "fa28d1ae1ca67042", ()),
+    # scanner SPLIT_PATTERN (verbose): braces | links | noinclude | protected tag blocks (lazy .*? up to the closing tag) | text
+    ("mwlib/parser/templ/scanner.py", "a6c994e1c80c06fc", ("DOTALL", "IGNORECASE", "VERBOSE")),
+}
+# statements that build a pattern at run time: (file, ast.unparse of the enclosing For/FunctionDef statement).  Reviewed: the
+# pattern is "^#(" + "|".join(re.escape(alias)) + "):" - an alternation of literals, no repetition at all.
+RX_DYNAMIC_PINNED = {
+    ("mwlib/parser/templ/parser.py",
+     "for magic_word_data in magicwords:\n"
+     "    name = magic_word_data['name']\n"
+     "    if name in ('if', 'switch'):\n"
+     "        aliases = [re.escape(alias) for alias in magic_word_data['aliases']]\n"
+     "        regex_pattern = '^#({}):'.format('|'.join(aliases))\n"
+     "        self.name2rx[name] = re.compile(regex_pattern)"),
+}
+
+
+def _rx_sha(pattern):
+    import hashlib
+    return hashlib.sha256(pattern.encode("utf8")).hexdigest()[:16]
+
+
+def _rx_flags(node, rel):
+    """re.I | re.DOTALL | ... -> (int value, sorted tuple of names)"""
+    import re
+    if node is None:
+        return 0, ()
+    if isinstance(node, ast.BinOp) and isinstance(node.op, ast.BitOr):
+        a, an = _rx_flags(node.left, rel)
+        b, bn = _rx_flags(node.right, rel)
+        return a | b, tuple(sorted(set(an) | set(bn)))
+    if isinstance(node, ast.Attribute) and isinstance(node.value, ast.Name) and node.value.id == "re" and node.attr in RX_FLAG_NAMES:
+        nm = RX_FLAG_NAMES[node.attr]
+        return int(getattr(re, nm)), (nm,)
+    if isinstance(node, ast.Constant) and node.value == 0:
+        return 0, ()
+    raise Unsupported("%s:%d: regex flags %s cannot be evaluated statically" % (rel, getattr(node, "lineno", 0), ast.unparse(node)))
+
+
+def module_regexes(src, rel):
+    """-> (patterns [(pattern, flag value, flag names, where)], problems [...]) of one module, never importing it"""
+    path = os.path.join(src, rel)
+    tree = ast.parse(open(path, encoding="utf8").read(), path)
+    parents = {}
+    for n in ast.walk(tree):
+        for c in ast.iter_child_nodes(n):
+            parents[c] = n
+    problems, found = [], []
+    imported = False
+    for n in ast.walk(tree):
+        if isinstance(n, ast.Import):
+            for a in n.names:
+                if a.name == "re" or a.name.startswith("re."):
+                    if a.asname or a.name != "re":
+                        problems.append("%s:%d: `import %s as %s`: only plain `import re` is understood" % (rel, n.lineno, a.name, a.asname))
+                    imported = True
+                if a.name in ("regex", "sre_compile", "sre_parse"):
+                    problems.append("%s:%d: import of %s (another regex engine/compiler)" % (rel, n.lineno, a.name))
+        if isinstance(n, ast.ImportFrom) and n.module and (n.module == "re" or n.module.startswith("re.") or n.module == "regex"):
+            problems.append("%s:%d: `from %s import ..`: regex functions must be used as re.X" % (rel, n.lineno, n.module))
+    # module-level string constants (evaluated in order; what cannot be evaluated is simply not a known constant)
+    env = {}
+    for st in tree.body:
+        if isinstance(st, ast.Assign) and len(st.targets) == 1 and isinstance(st.targets[0], ast.Name):
+            try:
+                env[st.targets[0].id] = _seval(st.value, env)
+            except Unsupported:
+                env.pop(st.targets[0].id, None)
+    # names assigned more than once anywhere are not constants
+    stores = {}
+    for n in ast.walk(tree):
+        if isinstance(n, ast.Name) and isinstance(n.ctx, ast.Store):
+            stores[n.id] = stores.get(n.id, 0) + 1
+        if isinstance(n, ast.arg):
+            stores[n.arg] = stores.get(n.arg, 0) + 2
+    for k in [k for k in env if stores.get(k, 0) != 1]:
+        del env[k]
+    dyn_ok_nodes = set()
+    for n in ast.walk(tree):
+        if isinstance(n, (ast.For, ast.FunctionDef)) and (rel, ast.unparse(n)) in RX_DYNAMIC_PINNED:
+            for c in ast.walk(n):
+                dyn_ok_nodes.add(c)
+    for n in ast.walk(tree):
+        if not (isinstance(n, ast.Name) and n.id == "re"):
+            continue
+        if not imported:
+            continue        # some other object called `re` would be odd but is not the regex module
+        par = parents.get(n)
+        if not (isinstance(par, ast.Attribute) and par.value is n):
+            problems.append("%s:%d: the module `re` itself is passed around (%s)" % (rel, n.lineno, ast.unparse(par)[:60] if par else "?"))
+            continue
+        attr = par.attr
+        if attr in RX_FLAG_NAMES:
+            continue
+        if attr == "escape":
+            if par not in dyn_ok_nodes:
+                problems.append("%s:%d: re.escape outside a reviewed pattern-building statement" % (rel, n.lineno))
+            continue
+        call = parents.get(par)
+        if attr not in RX_PATTERN_FUNCS or not (isinstance(call, ast.Call) and call.func is par):
+            problems.append("%s:%d: re.%s used in a way the regex review does not understand" % (rel, n.lineno, attr))
+            continue
+        if not call.args:
+            problems.append("%s:%d: re.%s without a positional pattern" % (rel, n.lineno, attr))
+            continue
+        fl_node = None
+        for kw in call.keywords:
+            if kw.arg == "flags":
+                fl_node = kw.value
+        npos = {"compile": 1, "match": 2, "search": 2, "fullmatch": 2, "findall": 2, "finditer": 2, "split": 3, "sub": 4, "subn": 4}[attr]
+        if fl_node is None and len(call.args) > npos:
+            fl_node = call.args[npos]
+        where = "%s:%d" % (rel, call.lineno)
+        try:
+            pat = _seval(call.args[0], env)
+            if not isinstance(pat, str):
+                raise Unsupported("%s: pattern is not a string" % where)
+            fv, fnames = _rx_flags(fl_node, rel)
+        except Unsupported as e:
+            if call in dyn_ok_nodes:
+                continue          # built from re.escape()d literals by a pinned statement
+            problems.append("%s: re.%s(%s): pattern built at run time by a statement that has not been reviewed (%s)"
+                            % (where, attr, ast.unparse(call.args[0])[:60], str(e)[:120]))
+            continue
+        found.append((pat, fv, fnames, where))
+    return found, problems
+
+
+def analyse_regexes(src):
+    """-> {"patterns": [[file, pattern, flags value]], "problems": [..]}; problems empty = every regex of the expansion path is a
+    reviewed one and none nests an unbounded repetition inside an unbounded repetition over overlapping characters"""
+    patterns, problems = [], []
+    seen_pins = set()
+    for rel in RX_FILES:
+        try:
+            found, probs = module_regexes(src, rel)
+        except (OSError, SyntaxError, Unsupported) as e:
+            problems.append("%s: %s" % (rel, e))
+            continue
+        problems += probs
+        for pat, fv, fnames, where in found:
+            patterns.append([rel, pat, fv])
+            for pr in regex_problems(pat, fv):
+                msg = "%s: %s" % (where, pr)
+                if msg not in problems:
+                    problems.append(msg)
+            pin = (rel, _rx_sha(pat), tuple(fnames))
+            seen_pins.add(pin)
+            if pin not in RX_PINNED:
+                problems.append("%s: pattern %r (flags %s, sha %s) is not one of the reviewed patterns of %s: its matching cost has not "
+                                "been reviewed" % (where, pat if len(pat) <= 120 else pat[:117] + "...", "|".join(fnames) or "0", pin[1], rel))
+    for pin in sorted(RX_PINNED - seen_pins):
+        problems.append("%s: reviewed pattern with sha %s (flags %s) is no longer there" % (pin[0], pin[1], "|".join(pin[2]) or "0"))
+    return {"patterns": patterns, "problems": problems}
+
+
 # ----------------------------------------------------------------------------- reads of lazily expanded arguments
 
 MANY = 99
